@@ -485,8 +485,8 @@ def feature_hist(ck: Ck, spec: dict) -> bool:
 
 
 def search(ck: Ck) -> None:
-    # quick: 450 maps; quick with a broken tie: 3000 (about 90 s); thorough: 9000
-    n = 9000 if ck.thorough else ck.budget(450, 3000)
+    # quick: 450 maps; quick with a broken tie: 3000 (about 90 s); thorough: 7500
+    n = 7500 if ck.thorough else ck.budget(450, 3000)
     found: dict[str, tuple[dict, str, dict]] = {}
     # Shrinking budget, counted in oracle evaluations (not wall time, so that results are reproducible): per violation key
     # and in total.  A fault in a hot path produces dozens of keys on big maps; the total keeps a failing run within minutes.
@@ -647,6 +647,8 @@ def run(ck: Ck) -> None:
         ck.explain('instance:disp_arrays_complete')
         ck.explain('instance:disp_row_keys_read')
         ck.explain('translate:VmfFieldsCfg_gen')
+    if any(k.startswith(('parse-error:ValueError', 'file:parse-error:ValueError')) for k in keys):
+        ck.explain('instance:disp_row_keys_read')      # an unreadable row index surfaces as ValueError from Side._iter_disp_row
     if any('outputs' in k or 'connections' in k or 'Bad output value' in k for k in keys):
         ck.explain('translate:VmfFieldsCfg_gen')
         ck.explain('instance:output_')
